@@ -145,4 +145,14 @@ TEXT = {
         "note": "PARTIAL: scheduler latency and timer resolution are outside the model (grid of 30 ms, arrivals and deadlines at least one unit apart); a message exactly at a deadline is a genuine race "
                 "in select and excluded. Trusted: Lean kernel, reflect.StructTag.Lookup/strconv.Atoi as modelled, nats.Subscription.Unsubscribe (the release is the deferred call in the code).",
     },
+    "C15": {
+        "text": "Lean 4 theorems (Props/C15.lean) over the model of a query event's life: every query request on an active query event gets exactly one response for EVERY callback script "
+                "(replies, double replies, only events, nothing, panics of any kind, wrong resource type, pre-responses); a missing query or a malformed payload is answered with an error; "
+                "the callback is called with nil at most once over any history and exactly once after the expiry; after it no request reaches the callback and nothing is published; "
+                "listener and subscription are released; a failed subscription calls back with nil once and publishes nothing. Serialisation in the resource's group is C01/C02 (the pool "
+                "traces include query requests and expiry callbacks). Tie: a real Service with a 150 ms query event duration on the recording connection: scripted callbacks, the expiry, "
+                "late requests after the expiry, failing subscription; the number of goroutines in startQueryListener is read from the goroutine dump.",
+        "note": "Trusted: Lean kernel; timerqueue (fires once after the duration); nats Subscription.Drain (the recording connection cannot observe it: subscription release is the Drain call in "
+                "the code). A request racing the expiry may be answered or dropped (the 'while it is active' boundary); Parallel resources have no serialisation by design.",
+    },
 }
